@@ -592,16 +592,45 @@ class Builder:
         """does sym s denote the current input position?"""
         return s == ["tok", self.cur] or (self.input_alias is not None and s == self.input_alias and self.alias_at == self.cur)
 
+    def norm(self, x):
+        """`i.len()` is tied to the position i denotes: at the current position it is what remains; at the start of a
+        region (or for a name of the whole region) it is the region's length; at any other, earlier position it is not
+        a quantity of the grammar (a length measured before something was consumed and used after)"""
+        if not (isinstance(x, list) and "remaining_at" in json.dumps(x)):
+            return x
+        def at(t):
+            if t == self.cur:
+                return REMAINING
+            bld = self
+            while bld is not None:
+                if getattr(bld, "region_start", None) == t:
+                    return ["len", bld.region]
+                if bld.input_alias is not None and bld.alias_at == t:
+                    return ["len", bld.input_alias]
+                bld = bld.parent
+            return ["opaque", "length of the input at an earlier position"]
+        def rw(t):
+            if isinstance(t, list):
+                if len(t) == 2 and t[0] == "remaining_at":
+                    return at(t[1])
+                return [rw(y) for y in t]
+            return t
+        return recanon(rw(x))
+
     def seq(self):
         return {"steps": self.steps, "ret": self.ret}
 
     def run(self, fn, top=False):
         """run fn(self) -> value; records ret; returns seq. A construct the evaluator cannot read inside a *nested*
         sequence becomes an opaque step there (so that properties that do not look inside that region are unaffected)."""
+        if top and getattr(self, "region_start", None) is None:
+            # the input a function is entered with is a region of its own: its length, measured on entry, stays a
+            # quantity of the grammar after some of it was consumed
+            self.region, self.region_start = ["input"], self.cur
         try:
             v = fn(self)
             if self.ret is None:
-                self.ret = ["ok", v]
+                self.ret = ["ok", self.norm(v)]
             canon_seq = push_ret(merge_many1(self.seq()))
             self.steps, self.ret = canon_seq["steps"], canon_seq["ret"]
         except Fail as f:
@@ -627,6 +656,7 @@ class Builder:
         return V(b)
 
     def bytes(self, n, mode="S"):
+        n = self.norm(n)
         b = self.counter.fresh()
         self.steps.append(["bytes", b, n, mode])
         self._adv()
@@ -638,6 +668,7 @@ class Builder:
         return ["bytes_lit", list(bs)]
 
     def guard(self, cond, kind=None):
+        cond = self.norm(cond)
         if cond == ["bool", False]:
             return
         if cond[0] == "op" and cond[1] == "||":
@@ -648,6 +679,8 @@ class Builder:
         self.steps.append(["guard", cond, kind])
 
     def fail(self, kind=None, severity="Error"):
+        if isinstance(kind, str) and kind.startswith("Incomplete:") and "remaining_at" in kind:
+            kind = "Incomplete:" + json.dumps(self.norm(json.loads(kind[len("Incomplete:"):])))
         raise Fail(kind, severity)
 
     # -- wrappers
@@ -697,6 +730,7 @@ class Builder:
         return self._wrap("cut", fn)
 
     def cond(self, c, fn):
+        c = self.norm(c)
         if c == ["bool", True]:
             return some(self._inline(fn))
         if c == ["bool", False]:
@@ -718,7 +752,7 @@ class Builder:
         return V(b)
 
     def count(self, n, fn):
-        return self._wrap("count", fn, n)
+        return self._wrap("count", fn, self.norm(n))
 
     def peek(self, fn):
         b = self.counter.fresh()
@@ -746,7 +780,11 @@ class Builder:
 
     def sub(self, region, fn):
         b = self.counter.fresh()
-        seq = self._nested(fn, same_input=False, drops=True)
+        region = self.norm(region)
+        def in_region(nb):
+            nb.region, nb.region_start = region, nb.cur
+            return fn(nb)
+        seq = self._nested(in_region, same_input=False, drops=True)
         return self._emit_sub(b, region, seq)
 
     def _emit_sub(self, b, region, seq):
@@ -816,6 +854,7 @@ class Builder:
         return V(b)
 
     def ite(self, c, fa, fb):
+        c = self.norm(c)
         if c == ["bool", True]:
             return self._inline(fa)
         if c == ["bool", False]:
@@ -935,6 +974,7 @@ class Builder:
 
     def switch(self, scrut, arms, default):
         """arms: [(consts(list of ints), fn)], default: fn"""
+        scrut = self.norm(scrut)
         if scrut[0] == "n":
             for consts, fn in arms:
                 if scrut[1] in consts:
@@ -1372,6 +1412,12 @@ class ParserChoice:
         self.hir, self.env, self.gen, self.tok = hir, env, gen, tok
 
 
+class ParserIter:
+    """`let mut it = nom::combinator::iterator(region, p);`: the entries of the region, walked when collected"""
+    def __init__(self, region, parser):
+        self.region, self.parser = region, parser
+
+
 class LazyResult:
     """`let res = <Result-typed expression>;` not yet looked at: evaluated where `res` is used (returned, matched, `?`)"""
     def __init__(self, hir, env, gen, tok):
@@ -1581,6 +1627,15 @@ class Ev:
             if nm in ("core::option::Option::<T>::unwrap_or_else", "core::option::Option::<T>::unwrap_or") and len(e["args"]) == 1:
                 # helper(..) -> Option<IResult>, None replaced by an error result
                 return self.eval_choice(e, env, gen, b, lambda x, env2, nb: self.eval_result_block(x, env2, gen, nb), None)
+            if nm == "nom::internal::Parser::parse" and len(e["args"]) == 1:
+                # p.parse(i) is p(i)
+                tok_ = self.sym(e["args"][0], env, gen)
+                pf = self.parser_of(e["recv"], env, gen)
+                if b.is_cur(tok_):
+                    return pf.apply(b)
+                if tok_[0] == "v":
+                    return b.sub(tok_, pf.apply)
+                raise Opaque("Parser::parse applied to something that is not the current input")
             raise Opaque("method call in result position: " + nm)
         raise Opaque("result expression kind " + k)
 
@@ -1826,6 +1881,28 @@ class Ev:
                 raise Opaque("let without init")
             ie = strip(init)
             pat = s["pat"]
+            if ie["k"] == "call" and path_of(ie["f"]) == "nom::combinator::iterator" and len(ie["args"]) == 2 and pat["k"] == "bind":
+                region = self.sym(ie["args"][0], env, gen)
+                if region[0] != "v":
+                    raise Opaque("parser iterator over something that is not a region")
+                env[pat["id"]] = ParserIter(region, self.parser_of(ie["args"][1], env, gen))
+                return None
+            if ie["k"] == "mcall" and (ie.get("path") or "") == ITER + "collect" and strip_ref(ie["recv"]).get("k") == "local" and isinstance(env.get(strip_ref(ie["recv"])["id"]), ParserIter):
+                # (&mut it).collect::<Vec<_>>() followed by it.finish()?  is  many0(p) over the region: both stop at the first
+                # Err::Error and hand on Failure / Incomplete (without the finish()? those would be swallowed)
+                it_id = strip_ref(ie["recv"])["id"]
+                it = env[it_id]
+                def is_finish(st_):
+                    if st_["k"] not in ("semi", "sexpr"):
+                        return False
+                    x_ = is_try(st_["e"])
+                    x_ = strip(x_) if x_ is not None else None
+                    return x_ is not None and x_["k"] == "mcall" and (x_.get("path") or "").endswith("ParserIterator::<I, E, F>::finish") and strip_ref(x_["recv"]).get("id") == it_id
+                if not (rest and is_finish(rest[0])):
+                    raise Opaque("parser iterator collected without finish()? right after")
+                self.bind_pat(pat, b.sub(it.region, lambda nb: nb.many0(it.parser.apply)), env)
+                env[it_id] = ["opaque", "exhausted parser iterator"]
+                return None
             tpl = self.as_tuple_result(ie, env, gen)
             if tpl is not None and pat["k"] == "ptuple" and len(pat["pats"]) == 2:
                 rem_pat, val_pat = pat["pats"]
@@ -1926,6 +2003,8 @@ class Ev:
                     return None
             if e["k"] == "match" and is_try(e) is not None:
                 inner = strip(is_try(e))
+                if inner["k"] == "mcall" and (inner.get("path") or "").endswith("ParserIterator::<I, E, F>::finish") and env.get(strip_ref(inner["recv"]).get("id")) == ["opaque", "exhausted parser iterator"]:
+                    return None   # accounted for where the iterator was collected
                 if inner.get("ty", "").startswith("core::result::Result<(), "):
                     # `check(..)?;` - a guard helper returning Result<(), nom::Err<..>>
                     self.eval_unit_result(inner, env, gen, b)
@@ -2726,12 +2805,33 @@ class Ev:
             if not e["stmts"] and e["expr"] is not None:
                 return self.parser_of(e["expr"], env, gen)
             raise Opaque("block as parser")
+        if k == "mcall" and (e.get("path") or "").startswith("nom::internal::Parser::"):
+            # the method forms of nom's combinators: p.map(f), p.and_then(q), p.flat_map(f), p.and(q), p.or(q)
+            meth = e["path"].split("::")[-1]
+            as_fn = {"map": "nom::combinator::map", "and_then": "nom::combinator::map_parser", "flat_map": "nom::combinator::flat_map",
+                     "and": "nom::sequence::pair"}
+            if meth in as_fn and len(e["args"]) == 1:
+                return self.parser_of({"k": "call", "f": {"k": "path", "path": as_fn[meth], "dk": "Fn"}, "args": [e["recv"], e["args"][0]], "ty": e.get("ty", "")}, env, gen)
+            if meth == "or" and len(e["args"]) == 1:
+                return self.parser_of({"k": "call", "f": {"k": "path", "path": "nom::branch::alt", "dk": "Fn"}, "args": [{"k": "tup", "xs": [e["recv"], e["args"][0]]}], "ty": e.get("ty", "")}, env, gen)
+            raise Opaque("parser method " + meth)
         if k == "call":
             f = strip(e["f"])
             fp = path_of(f)
             a = e["args"]
             if fp is None:
                 raise Opaque("call of non-path as parser constructor")
+            if fp == "nom::combinator::value" and len(a) == 2:
+                # value(v, p): p's result is dropped, v is produced
+                v_ = self.sym(a[0], env, gen)
+                p1 = self.parser_of(a[1], env, gen)
+                def val_(b):
+                    p1.apply(b)
+                    return v_
+                return ParserFn(val_, fp)
+            if fp == "nom::combinator::success" and len(a) == 1:
+                v_ = self.sym(a[0], env, gen)
+                return ParserFn(lambda b: v_, fp)
             if fp in ("nom::bytes::streaming::take", "nom::bytes::complete::take"):
                 n = self.sym(a[0], env, gen)
                 mode = "S" if "streaming" in fp else "C"
@@ -2916,6 +3016,20 @@ class Ev:
             return env[e2["id"]]
         return self.sym(e, env, gen)
 
+    def local_conversion(self, from_ty, to_ty, meth):
+        """the hand-written `impl TryFrom<from_ty> for U` / `impl From<from_ty> for U` whose result type is to_ty"""
+        trait = "core::convert::TryFrom" if meth == "try_from" else "core::convert::From"
+        found = []
+        nolt = lambda t: re.sub(r"'[\w{}]+ ", "", t or "")
+        from_ty, to_ty = nolt(from_ty), nolt(to_ty)
+        for ff in self.facts.hir_fns():
+            if ff.get("impl_trait_path") == trait and ff.get("name") == meth and len(ff.get("inputs", [])) == 1 and nolt(ff["inputs"][0]) == from_ty:
+                slf = nolt(ff.get("impl_self"))
+                want = ("core::result::Result<%s, " % slf) if meth == "try_from" else slf
+                if (meth == "try_from" and to_ty.startswith(want)) or (meth == "from" and to_ty == want):
+                    found.append(ff)
+        return found[0] if len(found) == 1 else None
+
     def pure_call(self, path, args, e=None):
         f = self.facts.fn(path)
         if f is not None and "hir" in f and len(f["params"]) == len(args):
@@ -3099,6 +3213,11 @@ class Ev:
             recv = self.sym(e["recv"], env, gen)
             if recv[0] == "tok":
                 recv = ["tokbytes"] + recv[1:]
+            if not e["args"] and (p.endswith("TryInto<U>>::try_into") or p.endswith("Into<U>>::into") or p in ("core::convert::TryInto::try_into", "core::convert::Into::into")):
+                # the blanket impls: x.try_into() is U::try_from(x), x.into() is U::from(x); a local impl is inlined
+                conv = self.local_conversion(strip(e["recv"]).get("ty", ""), e.get("ty", ""), "try_from" if "try_into" in p else "from")
+                if conv is not None:
+                    return self.pure_call(conv["path"], [recv], e)
             args = []
             for a in e["args"]:
                 a2 = strip_ref(a)
@@ -3111,11 +3230,11 @@ class Ev:
                     args.append(self.sym(a, env, gen))
             if p == "core::slice::<impl [T]>::len" or p.endswith("::len") and not args:
                 if recv[0] == "tokbytes":
-                    return REMAINING
+                    return ["remaining_at", recv[1]]   # what remains at that position of the input (see Builder.norm)
                 return ["len", recv]
             if p == "core::slice::<impl [T]>::is_empty" or (p.endswith("::is_empty") and not args):
                 if recv[0] == "tokbytes":
-                    return eq(REMAINING, N(0))
+                    return eq(["remaining_at", recv[1]], N(0))
                 return eq(["len", recv], N(0))
             m_ = re.fullmatch(r"core::num::<impl u(16|32|64)>::to_(be|le)_bytes", p)
             if m_ and not args:
@@ -3158,6 +3277,11 @@ class Ev:
             return canon_mcall(p, [recv] + args)
         if k == "closure":
             return self.lam(e, env, gen)
+        if k == "if" and strip(e["c"])["k"] == "letexpr" and e.get("f") is not None:
+            # if let PAT = X { A } else { B }   is   match X { PAT => A, _ => B }
+            le_ = strip(e["c"])
+            return self.sym({"k": "match", "scrut": le_["init"], "ty": e.get("ty", ""), "arms": [
+                {"pat": le_["pat"], "guard": None, "body": e["t"]}, {"pat": {"k": "wild"}, "guard": None, "body": e["f"]}]}, env, gen)
         if k == "if":
             c = self.sym(e["c"], env, gen)
             t = self.sym(e["t"], env, gen)
@@ -3271,6 +3395,9 @@ def canon_mcall(p, args):
     if p == "core::option::Option::<T>::unwrap_or" and len(args) == 2 and args[0][0] == "mcall" and args[0][1] == "core::option::Option::<T>::map" and len(args[0][2]) == 2 \
             and args[0][2][1] == ["lam", 1, ["ctor", "core::result::Result::Ok", [["lp", 0]]]] and args[1][0] == "ctor" and args[1][1] == "core::result::Result::Err" and len(args[1][2]) == 1:
         return ["mcall", "core::option::Option::<T>::ok_or", [args[0][2][0], args[1][2][0]]]   # match o { Some(x) => Ok(x), None => Err(e) }
+    if p == "core::result::Result::<T, E>::ok" and len(args) == 1 and args[0][0] == "mcall" and args[0][1] in ("core::option::Option::<T>::ok_or", "core::option::Option::<T>::ok_or_else") \
+            and len(args[0][2]) == 2:
+        return args[0][2][0]   # o.ok_or(e).ok() is o
     if p in (ITER + "copied", ITER + "cloned") and len(args) == 1:
         return args[0]  # element values are compared, not their addresses
     if p == ITER + "map" and len(args) == 2:
